@@ -18,6 +18,7 @@ def run(ctx):
         "trailing-slash rule).")
     K = make_kinds(ctx.model)
     order.ord2(ctx, K)
+    order.ord2_name(ctx)    # ... and the two modifiers that bypass the normaliser never store a dot segment under an authority
     order.flag_accumulates(ctx)
     flow.f3_join(ctx, only={"dots"})      # join(): the merged path is normalised on every path that merges
     order.ord1(ctx, K)
